@@ -111,6 +111,13 @@ func (c *CEnv) eval(e *Expr) cv {
 			decl = append(decl, fmt.Sprintf("(%s %s)", nm, so))
 		}
 		body := c.term(e.Args[0])
+		if len(e.Args) > 1 {
+			var ps []string
+			for _, tr := range e.Args[1:] {
+				ps = append(ps, c.term(tr).S)
+			}
+			body = T{S: fmt.Sprintf("(! %s :pattern (%s))", body.S, strings.Join(ps, " ")), So: SBool}
+		}
 		for _, v := range e.Vars {
 			delete(c.bound, v)
 			if old, ok := saved[v]; ok {
@@ -232,6 +239,10 @@ func (c *CEnv) ident(name string) cv {
 	}
 	if t, ok := constSpec[name]; ok {
 		return cv{V: t}
+	}
+	if name == "totalPower" {
+		c.x.e.declareFun("uf_totalpower", "() Int")
+		return cv{V: T{S: "uf_totalpower", So: SInt}}
 	}
 	c.fail("unknown identifier %q", name)
 	return cv{}
@@ -394,6 +405,11 @@ func (c *CEnv) sel(v cv, field string) cv {
 		case "v":
 			raw := T{S: fmt.Sprintf("(someval %s)", x.Opt.S), So: SString}
 			return c.x.decodeValue(st, x.Fam, raw)
+		case "n":
+			// numeric reading used by the u64 getters: 0 when absent or empty
+			raw := T{S: fmt.Sprintf("(someval %s)", x.Opt.S), So: SString}
+			pres := T{S: fmt.Sprintf("((_ is some) %s)", x.Opt.S), So: SBool}
+			return cv{V: Ite(And(pres, Gt(StrLen(raw), IntLit(0))), app(SInt, "u64dec", raw), IntLit(0))}
 		}
 		c.fail("ghost entry has fields present, raw, v; not %s", field)
 	case *PtrV:
@@ -728,7 +744,66 @@ func (c *CEnv) callFn(e *Expr) cv {
 		// sum(f, lo, hi): uninterpreted prefix sum with unfolding axioms added per use (see sumTerm)
 		c.fail("sum() is not supported; use explicit ghost accumulators")
 	}
-	if sig, ok := specUFs[name]; ok {
+	switch name {
+	case "dynfield":
+		// dynfield(d, "Field"): the field of whichever concrete message type d holds (ite chain over constructors)
+		d := c.eval(e.Args[0])
+		var dt T
+		switch dv := d.V.(type) {
+		case T:
+			dt = dv
+		case *IfaceV:
+			dt = c.x.e.ifaceDyn(c.curState(), dv)
+		case *PtrV:
+			dt = c.x.anyDyn(c.curState(), dv)
+		case *OpaqueV:
+			dt = c.x.anyDyn(c.curState(), dv)
+		default:
+			c.fail("dynfield of %T", d.V)
+		}
+		fld := e.Args[1].Val
+		var res *T
+		// make sure all implementers are registered as constructors
+		cons := append([]dynCon(nil), c.x.e.dynCons...)
+		for i := len(cons) - 1; i >= 0; i-- {
+			dc := cons[i]
+			fs := c.x.e.dtFields[dc.Sort]
+			for _, f := range fs {
+				if f.Name == fld {
+					sel := T{S: fmt.Sprintf("(%s_%s (%s_v %s))", dc.Sort, f.Name, dc.Name, dt.S), So: f.Sort}
+					if res == nil {
+						r := sel
+						res = &r
+					} else {
+						r := Ite(T{S: fmt.Sprintf("((_ is %s) %s)", dc.Name, dt.S), So: SBool}, sel, *res)
+						res = &r
+					}
+				}
+			}
+		}
+		if res == nil {
+			c.fail("no message type with field %s", fld)
+		}
+		return cv{V: *res}
+	case "valOf":
+		s := c.term(e.Args[0])
+		c.x.e.declareFun("uf_bech32valok", "(String) Bool")
+		c.x.e.declareFun("uf_valFromBech32", "(String) String")
+		return cv{V: Ite(app(SBool, "uf_bech32valok", s), app(SString, "uf_valFromBech32", s), T{S: `""`, So: SString})}
+	case "accOf":
+		s := c.term(e.Args[0])
+		c.x.e.declareFun("uf_bech32ok", "(String) Bool")
+		c.x.e.declareFun("uf_accFromBech32", "(String) String")
+		return cv{V: Ite(app(SBool, "uf_bech32ok", s), app(SString, "uf_accFromBech32", s), T{S: `""`, So: SString})}
+	}
+	sig, ok := specUFs[name]
+	if !ok {
+		sig, ok = c.x.specs.specFns[name]
+		if ok {
+			c.x.useSpecAxioms()
+		}
+	}
+	if ok {
 		if len(sig.Args) != len(e.Args) {
 			c.fail("%s expects %d arguments", name, len(sig.Args))
 		}
@@ -757,6 +832,23 @@ func (c *CEnv) storeN(m T, rest []*Expr) T {
 	inner := T{S: fmt.Sprintf("(select %s %s)", m.S, k.S), So: arrayValueSort(m.So)}
 	upd := c.storeN(inner, rest[1:])
 	return T{S: fmt.Sprintf("(store %s %s %s)", m.S, k.S, upd.S), So: m.So}
+}
+
+// useSpecAxioms adds the user-declared axioms (over user-declared spec functions) to the engine's axiom set.
+func (x *Exec) useSpecAxioms() {
+	if x.axiomsLoaded {
+		return
+	}
+	x.axiomsLoaded = true
+	for name, sig := range x.specs.specFns {
+		x.e.declareFun("uf_"+name, "("+strings.Join(sig.Args, " ")+") "+sig.Res)
+	}
+	for _, ax := range x.specs.axioms {
+		c := &CEnv{x: x, st: &State{Worlds: map[int]map[string]T{0: {}}, Heap: map[int]Val{}}, names: map[string]cv{}, bound: map[string]T{}}
+		t := x.evalClause(c, ax)
+		x.e.addAxiom("(assert " + t.S + ")")
+		x.e.note("spec axiom " + ax.Name + ": " + ax.Src)
+	}
 }
 
 // ---------------------------------------------------------------------------
